@@ -377,7 +377,7 @@ Section P.
           by (rewrite app_length, CL, X32; apply Nat.eqb_refl).
         simpl. rewrite LEN. simpl.
         rewrite (skipn_exact _ _ CT_SIZE CL), (firstn_exact _ _ CT_SIZE CL).
-        unfold KeyShare.ecdhe_key_for. simpl. rewrite M2. unfold KeyShare.get_shared. simpl. rewrite D1, M1. simpl. rewrite D1, KK. reflexivity.
+        unfold KeyShare.ecdhe_key_for. simpl. rewrite M2. unfold KeyShare.get_shared. simpl. rewrite D1, M1. simpl. rewrite KK. reflexivity.
       + destruct (N.eqb_spec (ks_group k') 25497) as [EK|NK]; [|discriminate].
         rewrite EK in *. change (25497 =? 4588) with false in *. simpl in DD. rewrite DD in SF.
         rewrite (firstn_exact _ _ X_SIZE (X32 xk)), (skipn_exact _ _ X_SIZE (X32 xk)) in SF.
@@ -388,14 +388,14 @@ Section P.
           by (rewrite app_length, CL, X32; apply Nat.eqb_refl).
         simpl. rewrite LEN. simpl.
         rewrite (skipn_exact _ _ X_SIZE (X32 b)), (firstn_exact _ _ X_SIZE (X32 b)).
-        unfold KeyShare.ecdhe_key_for. simpl. rewrite M2. unfold KeyShare.get_shared. simpl. rewrite D1, M1. simpl. rewrite D1, KK. reflexivity.
+        unfold KeyShare.ecdhe_key_for. simpl. rewrite M2. unfold KeyShare.get_shared. simpl. rewrite D1, M1. simpl. rewrite KK. reflexivity.
     - destruct SB as (C & ck & DD & SEL).
       unfold hybrid in Hy. apply orb_false_iff in Hy as [NM NK].
       unfold KeyShare.server_flight in SF. unfold G_MLKEM, G_KYBER in *. rewrite NM, NK in *. simpl.
       rewrite SEL. rewrite DD in SF.
       destruct (L_dh_comm L (ks_group k') ck b C) as (s & D1 & D2). rewrite D2 in SF. inversion SF; subst sdata ssec.
       unfold KeyShare.get_shared. simpl. rewrite D1.
-      unfold hybrid. rewrite NM, NK. reflexivity.
+      unfold hybrid. try rewrite NM, NK. reflexivity.
   Qed.
 
   Theorem keys_retained quic gv shares p0 a :
@@ -467,4 +467,165 @@ Section P.
     rewrite LA, EA. eapply loop_contig; eauto. rewrite LS, PS.
     destruct quic; simpl; repeat (rewrite N.eqb_refl; simpl); reflexivity.
   Qed.
+
+  Lemma contiguous_le p l q : contiguous p l = Some q -> p <= q.
+  Proof.
+    revert p. induction l as [|s l IH]; simpl; intros p H; [inversion H; lia|].
+    destruct ((sg_start s =? p) && (0 <? sg_len s)) eqn:E; [|discriminate]. apply IH in H. lia.
+  Qed.
+
+  Lemma contiguous_bounds p l q : contiguous p l = Some q ->
+    forall i s, nth_error l i = Some s -> p <= sg_start s /\ 0 < sg_len s /\ sg_start s + sg_len s <= q.
+  Proof.
+    revert p. induction l as [|x l IH]; simpl; intros p H i s N1; [destruct i; discriminate|].
+    destruct ((sg_start x =? p) && (0 <? sg_len x)) eqn:E; [|discriminate].
+    apply andb_true_iff in E as [E1 E2]. apply N.eqb_eq in E1. apply N.ltb_lt in E2.
+    destruct i; simpl in N1.
+    - inversion N1; subst. apply contiguous_le in H. lia.
+    - destruct (IH _ H _ _ N1) as (A & B & C). lia.
+  Qed.
+
+  (* two different draws never overlap *)
+  Lemma contiguous_disjoint p l q : contiguous p l = Some q ->
+    forall i j si sj, (i < j)%nat -> nth_error l i = Some si -> nth_error l j = Some sj ->
+                      sg_start si + sg_len si <= sg_start sj.
+  Proof.
+    revert p. induction l as [|x l IH]; simpl; intros p H i j si sj LT N1 N2; [destruct i; discriminate|].
+    destruct ((sg_start x =? p) && (0 <? sg_len x)) eqn:E; [|discriminate].
+    apply andb_true_iff in E as [E1 E2]. apply N.eqb_eq in E1.
+    destruct j; [lia|]. simpl in N2. destruct i; simpl in N1.
+    - inversion N1; subst. destruct (contiguous_bounds _ _ _ H _ _ N2) as (A & _). lia.
+    - apply (IH _ H i j si sj); [lia|exact N1|exact N2].
+  Qed.
+
+  Theorem draw_disjoint fixed quic gv shares p0 a :
+    apply_preset fixed quic gv shares p0 = Ok a ->
+    (* every draw lies inside [p0, a_end) and is non-empty *)
+    (forall i s, nth_error (a_log a) i = Some s -> p0 <= sg_start s /\ 0 < sg_len s /\ sg_start s + sg_len s <= a_end a)
+    (* no byte of the stream serves two draws *)
+    /\ (forall i j si sj, (i < j)%nat -> nth_error (a_log a) i = Some si -> nth_error (a_log a) j = Some sj ->
+                          sg_start si + sg_len si <= sg_start sj)
+    (* the random and the session id are the bytes of their own draws *)
+    /\ (nth_error (a_log a) 0 = Some (mkSeg DRandom p0 32) /\ a_random a = take_at rnd p0 32)
+    /\ (quic = false -> exists p, nth_error (a_log a) 3 = Some (mkSeg DSid p 32) /\ a_sid a = take_at rnd p 32).
+  Proof.
+    intros H. pose proof (draws_contiguous _ _ _ _ _ _ H) as C.
+    split; [eapply contiguous_bounds; eauto|]. split; [eapply contiguous_disjoint; eauto|].
+    apply apply_inv in H as (s0 & s & A & _ & _ & _ & LA & _ & RA & SA & _ & LS).
+    assert (PRE : exists rest, s_log s = s_log s0 ++ rest).
+    { clear -A. revert A. generalize 0%nat. generalize (a_shares a). generalize s0. clear.
+      intros s0 out n. revert s0 out n. induction shares as [|k tl IH]; intros s0 out n A.
+      - simpl in A. inversion A; subst. exists []. now rewrite app_nil_r.
+      - apply loop_cons in A as (k' & s1 & tl' & A & B & ->). destruct (IH _ _ _ B) as (r2 & R2).
+        apply step_inv in A. destruct A; simpl in *; eauto; rewrite R2, <- app_assoc; eauto. }
+    destruct PRE as (rest & PRE). rewrite LA, PRE, LS. split.
+    - destruct quic; split; auto.
+    - intros ->. eexists. split; [reflexivity|]. exact SA.
+  Qed.
+
+  (* ---- 4. QUIC: empty legacy session id (RFC 9001 8.4); TCP: 32 fresh bytes ---- *)
+  Theorem quic_empty_sid fixed gv shares p0 a :
+    apply_preset fixed true gv shares p0 = Ok a -> a_sid a = [].
+  Proof. intros H. apply apply_inv in H as (s0 & s & _ & _ & _ & _ & _ & _ & _ & SA & _). exact SA. Qed.
+
+  Lemma take_at_length p n : length (take_at rnd p n) = n.
+  Proof. unfold take_at. now rewrite map_length, seq_length. Qed.
+
+  Theorem tcp_sid_random_32 fixed gv shares p0 a :
+    apply_preset fixed false gv shares p0 = Ok a -> length (a_sid a) = 32%nat /\ length (a_random a) = 32%nat.
+  Proof.
+    intros H. apply apply_inv in H as (s0 & s & _ & _ & _ & _ & _ & _ & RA & SA & _).
+    rewrite RA, SA. split; apply take_at_length.
+  Qed.
+
+  (* two connections reading one Config.Rand one after the other use disjoint parts of the stream *)
+  Theorem fresh_across fixed q1 q2 gv1 gv2 sh1 sh2 p1 p2 a1 a2 :
+    apply_preset fixed q1 gv1 sh1 p1 = Ok a1 -> apply_preset fixed q2 gv2 sh2 p2 = Ok a2 -> a_end a1 <= p2 ->
+    forall i j s1 s2, nth_error (a_log a1) i = Some s1 -> nth_error (a_log a2) j = Some s2 ->
+                      sg_start s1 + sg_len s1 <= sg_start s2.
+  Proof.
+    intros H1 H2 LE i j s1 s2 N1 N2.
+    destruct (draw_disjoint _ _ _ _ _ _ H1) as (B1 & _). destruct (draw_disjoint _ _ _ _ _ _ H2) as (B2 & _).
+    destruct (B1 _ _ N1) as (_ & _ & X). destruct (B2 _ _ N2) as (Y & _). lia.
+  Qed.
 End P.
+
+(* ---- the statements as closed propositions over every crypto instance that satisfies the laws ---- *)
+Definition keys_retained_stmt (fixed : bool) : Prop :=
+  forall (priv dkey : Type) (rnd : N -> N) (ecdh_gen : N -> N -> priv * N) (pub : N -> priv -> bytes)
+         (dh : N -> priv -> bytes -> option bytes) (kem_new : bytes -> dkey) (kem_ek : dkey -> bytes)
+         (kem_decap : dkey -> bytes -> option bytes) (kem_encap : bytes -> bytes -> bytes * bytes),
+    laws ecdh_gen pub dh kem_ek kem_decap kem_encap ->
+    forall quic gv shares p0 a,
+      wf_shares shares = true ->
+      apply_preset priv dkey rnd ecdh_gen pub kem_new kem_ek fixed quic gv shares p0 = Ok a ->
+      forall i k k', nth_error shares i = Some k -> nth_error (a_shares a) i = Some k' -> generated k = true ->
+        ks_group k' = ks_group k /\
+        forall b r sdata ssec,
+          server_flight priv pub dh kem_encap (ks_group k') (ks_data k') b r = Some (sdata, ssec) ->
+          client_secret priv dkey dh kem_decap fixed true (a_keys a) (ks_group k') sdata = Ok ssec.
+
+Theorem keys_retained_fixed : keys_retained_stmt true.
+Proof. unfold keys_retained_stmt. intros. eapply keys_retained; eauto. Qed.
+
+(* ---- the toy instance satisfies the laws ---- *)
+Lemma pad_length n l : length (pad n l) = n.
+Proof. unfold pad. rewrite firstn_length, app_length, repeat_length. lia. Qed.
+
+Lemma firstn_pad_prefix (x : bytes) m n : length x = m -> (m <= n)%nat -> firstn m (pad n x) = x.
+Proof.
+  intros Hx Hm. unfold pad. rewrite firstn_firstn, Nat.min_l by exact Hm.
+  subst m. rewrite firstn_app, Nat.sub_diag, firstn_all. simpl. apply app_nil_r.
+Qed.
+
+Lemma toy_laws rnd : laws (toy_gen rnd) toy_pub toy_dh toy_kem_ek toy_kem_decap toy_kem_encap.
+Proof.
+  constructor.
+  - intros g k C. unfold toy_pub, lenN. rewrite pad_length. lia.
+  - intros g a b C.
+    assert (S2 : exists m, N.to_nat (share_size g) = S (S m)).
+    { unfold classical_impl, memN in C. simpl in C.
+      destruct (N.eqb_spec g 29) as [->|]; [eexists; vm_compute; reflexivity|].
+      destruct (N.eqb_spec g 23) as [->|]; [eexists; vm_compute; reflexivity|].
+      destruct (N.eqb_spec g 24) as [->|]; [eexists; vm_compute; reflexivity|].
+      destruct (N.eqb_spec g 25) as [->|]; [eexists; vm_compute; reflexivity|]. discriminate. }
+    destruct S2 as (m & S2).
+    assert (P : forall k, toy_dh g a (toy_pub g k) = Some [g; (a * k) mod 65521]).
+    { intros k. unfold toy_dh. unfold lenN, toy_pub. rewrite pad_length, N2Nat.id, N.eqb_refl.
+      unfold pad. rewrite S2. simpl.
+      replace (k / 256 * 256 + k mod 256) with k; [reflexivity|].
+      rewrite N.mul_comm. apply N.div_mod. lia. }
+    assert (P' : forall k, toy_dh g b (toy_pub g k) = Some [g; (b * k) mod 65521]).
+    { intros k. unfold toy_dh. unfold lenN, toy_pub. rewrite pad_length, N2Nat.id, N.eqb_refl.
+      unfold pad. rewrite S2. simpl.
+      replace (k / 256 * 256 + k mod 256) with k; [reflexivity|].
+      rewrite N.mul_comm. apply N.div_mod. lia. }
+    exists [g; (a * b) mod 65521]. split; [apply P|]. rewrite P', N.mul_comm. reflexivity.
+  - intros d. unfold toy_kem_ek. apply pad_length.
+  - intros ek r. unfold toy_kem_encap. simpl. apply pad_length.
+  - intros d r. unfold toy_kem_decap, toy_kem_encap. cbn [fst snd]. f_equal.
+    apply firstn_pad_prefix; [apply pad_length|unfold CT_SIZE; lia].
+  - intros g p. unfold toy_gen. simpl.
+    destruct (N.odd (rnd p)); destruct (g =? 29); destruct (g =? 23); destruct (g =? 24); lia.
+Qed.
+
+(* ---- the pre-repair code violates the statement: two classical shares, the server selects the second ---- *)
+Definition rnd0 (i : N) : N := (i * 7 + 3) mod 251.
+Definition firefox_shares : list kshare := [mkKS 29 []; mkKS 23 []].
+
+Theorem keys_retained_unfixed_refuted : ~ keys_retained_stmt false.
+Proof.
+  intros H.
+  specialize (H N bytes rnd0 (toy_gen rnd0) toy_pub toy_dh toy_kem_new toy_kem_ek toy_kem_decap toy_kem_encap (toy_laws rnd0)
+                false 2570 firefox_shares 0).
+  destruct (toy_apply rnd0 false false 2570 firefox_shares 0) as [a| |] eqn:E; [|vm_compute in E; discriminate..].
+  unfold toy_apply in E.
+  specialize (H a eq_refl E 1%nat (mkKS 23 [])).
+  assert (X : exists k', nth_error (a_shares a) 1 = Some k').
+  { vm_compute in E. inversion E; subst. simpl. eauto. }
+  destruct X as (k' & X). destruct (H k' eq_refl X eq_refl) as [G B].
+  vm_compute in E. inversion E; subst a. clear E. simpl in X. inversion X; subst k'. clear X.
+  specialize (B 5 []). simpl ks_group in B. simpl ks_data in B.
+  destruct (server_flight N toy_pub toy_dh toy_kem_encap 23 _ 5 []) as [[sd ss]|] eqn:SF; [|vm_compute in SF; discriminate].
+  specialize (B sd ss eq_refl). vm_compute in SF. inversion SF; subst. vm_compute in B. discriminate.
+Qed.
